@@ -1,7 +1,7 @@
 From Coq Require Extraction.
 From Coq Require Import ExtrOcamlBasic.
 From OlaBase Require Import Bytes.
-From C13 Require Import Gen Model Chk.
+From C13 Require Import Gen Model AckTimer Chk.
 Extraction Language OCaml.
 Extraction "model.ml" io_witness N.div_eucl chk_13 chk_sweep predict test_dispatch test_fan help_run
-  known_testdata.
+  known_testdata at_run at_init qcount.
